@@ -134,7 +134,9 @@ pub fn gen(seed: u64, n: usize, _tier: &str) -> Vec<Case> {
             }
         }
         if g.r.chance(1, 2) && sleeps < 7 { ops.push(bsleep_op(GRID)); }
-        for c in 1..=nc { if open[c as usize] { ops.push(brecv_op(c)); } }
+        // every connection is read once more - also the ones closed above: a BCLOSE is skipped at run time when the
+        // connection has requests waiting, and what it receives later must be seen by the judge
+        for c in 1..=nc { ops.push(brecv_op(c)); }
         ops.push(vec![b("BDUMP"), i(0)]);
         for db in 0..2 {
             ops.push(cmd_op(OBS, &[b"SELECT", if db == 0 { b"0" } else { b"1" }]));
